@@ -6,6 +6,16 @@ props = [json.loads(l) for l in open(os.path.join(V, "properties.jsonl"))]
 
 MACHINE_NOTE = 'The reference machine (spec/Machine.tla + Values.tla) is a transcription of the intended semantics checked for totality (NotStuck) by TLC; where no language document exists the pinned behaviour is the definition. Numbers outside the modelled domain are not compared.'
 CHECKS = {
+ "C13": dict(
+    level="model_checking",
+    text="Strings.tla is a byte-level reference model (UTF-8 boundaries, characters, code points, validity) of string / vector / tuple indexing and "
+         "slicing and of every string function, with the error classes, messages and check order of the code. TLC enumerates every case of the pools "
+         "as an initial state - all strings of <= 2 (thorough 3) characters over an alphabet mixing 1-, 2-, 3- and 4-byte characters x every index "
+         "around every boundary x special numbers x non-numbers, every range, every function with every argument combination, byte and code point "
+         "sequences valid and invalid - proves that every produced string is valid UTF-8, and prints the expected result of each case; each case is "
+         "run as a one-line program on the implementation and must print exactly that.",
+    note="Exhaustive over the stated pools only. Number parsing / printing inside strings belongs to C19.",
+    technique="TLA+ functional model + TLC exhaustive case enumeration + one implementation run per case", design="4 C13"),
  "C12": dict(
     level="model_checking",
     text="In Machine.tla a HashMap is a list of pairs whose keys are pairwise not == under the language's equality (NaN never equal, 0 == -0, tuples "
